@@ -299,7 +299,7 @@ impl Prop for C10 {
     type Input = Input;
 
     fn budget(tier: Tier) -> u64 {
-        tier.pick(60_000, 1_500_000)
+        tier.pick(120_000, 1_500_000)
     }
 
     fn strategy(tier: Tier) -> BoxedStrategy<Case> {
